@@ -22,18 +22,19 @@ class FifoScn(Scenario):
                'mpservice.streamer._streamer']
 
     def __init__(self, N=2, concurrency=1, capacity=None, return_x=False, return_exceptions=False,
-                 fn_fail=True, src_fail=False, pre_fail=False, may_stop=False, observe=False):
+                 fn_fail=True, src_fail=False, pre_fail=False, may_stop=False, observe=False, lazy_take=None):
         self.N, self.concurrency, self.capacity = N, concurrency, capacity
         self.return_x, self.return_exceptions = return_x, return_exceptions
         self.fn_fail, self.src_fail, self.pre_fail, self.may_stop = fn_fail, src_fail, pre_fail, may_stop
         self.observe = observe
+        self.lazy_take = lazy_take
         self.halt = observe
         self.params = dict(N=N, concurrency=concurrency, capacity=capacity, return_x=return_x,
                            return_exceptions=return_exceptions, fn_fail=fn_fail, src_fail=src_fail,
-                           pre_fail=pre_fail, may_stop=may_stop, observe=observe)
+                           pre_fail=pre_fail, may_stop=may_stop, observe=observe, lazy_take=lazy_take)
         cap = capacity if capacity is not None else 2 * concurrency
         self.cap = cap
-        self.caps = {'deque': cap + 2, 'pool_jobs': cap + 3, 'pool_workers': concurrency}
+        self.caps = {'deque': N + 2, 'pool_jobs': N + 1, 'pool_workers': concurrency}
 
     # symbolic environment ------------------------------------------------------------------
     def fn_fails(self, i):
@@ -54,6 +55,7 @@ class FifoScn(Scenario):
         pulled = SCounter('pulled') if obs else None
         handed = SCounter('handed') if obs else None
         running = SCounter('running') if obs else None
+        self._ctrs = (pulled, handed, running)
 
         def src():
             for i in range(N):
@@ -103,6 +105,9 @@ class FifoScn(Scenario):
                 out.append(y)
                 if obs:
                     handed.inc()
+                if self.lazy_take is not None and len(out) >= self.lazy_take:
+                    stopped = True   # a lazy consumer: takes a few outputs and walks away
+                    break
                 if self.may_stop and choose(f'stop{len(out)}', 2) == 1:
                     stopped = True
                     break
@@ -167,4 +172,10 @@ class FifoScn(Scenario):
                       z3.ULE(S.get('running.n'), self.concurrency))
 
     def concrete_snapshot(self):
-        return None
+        if not self.observe:
+            return None
+        p, h, r = self._ctrs
+        return {'pulled': p._real, 'handed': h._real, 'running': r._real}
+
+    def concrete_invariant(self, snap):
+        return snap['pulled'] - snap['handed'] <= self.cap + 3 and snap['running'] <= self.concurrency
